@@ -51,7 +51,7 @@ fi
 # by the main check
 SUMMARY=""
 case "$PROP" in
-C09|C10|C14|C16|C20)
+C07|C09|C10|C14|C16|C20)
   case " $* " in *" -replay "*) ;; *)
   SCHED_OK=1
   if [ -z "$OVERLAY" ] || ! go build -modfile="$MODFILE" -tags "verif sched" -overlay "$OVERLAY" -o "$BIN.sched" ./cmd/schedcheck > "$OV/build.log" 2>&1; then
@@ -95,10 +95,10 @@ rc=$(cat "$RUNLOG.rc")
 # the enumerating parts call the library from all worker goroutines at once, each on values of its
 # own; a tree in which such calls share unsynchronised state can end the process with a Go runtime
 # fatal error (not recoverable in-process) before any oracle has spoken: the property's oracles are
-# then run again on a single worker (that the calls are not independent is C10's subject)
+# then run again on a single worker (that the calls are not independent is a violation of C09 / C10 in its own right and reported as such there)
 if [ "$rc" != 0 ] && [ "$rc" != 1 ] && grep -q '^fatal error: concurrent map' "$RUNLOG"; then
   echo "note: the library ended the process with a Go runtime fatal error under concurrent calls on separate values ($(grep -m1 '^fatal error' "$RUNLOG")); running the property's oracles again on one worker"
-  VERIF_WORKERS=1 VERIF_SCHED_SUMMARY="$SUMMARY" "$BIN" -property "$PROP" -tier "$TIER" "$@"
+  VERIF_FATAL_LOG="$RUNLOG" VERIF_WORKERS=1 VERIF_SCHED_SUMMARY="$SUMMARY" "$BIN" -property "$PROP" -tier "$TIER" "$@"
   rc=$?
 fi
 rm -f "$RUNLOG" "$RUNLOG.rc"
